@@ -26,7 +26,8 @@ type Term struct {
 	Name string
 	Args []*Term
 	V    ssa.Value
-	Idx  int // param index; extract index
+	C    *tctx // the context V was evaluated in
+	Idx  int   // param index; extract index
 }
 
 func (t *Term) String() string {
@@ -164,6 +165,7 @@ func (e *termEval) eval(v ssa.Value, c *tctx) *Term {
 	delete(e.busy, k)
 	if t.V == nil {
 		t.V = v
+		t.C = c
 	}
 	e.memo[k] = t
 	return t
